@@ -30,7 +30,7 @@ ASSUMPTIONS = [
 ]
 
 SPECIAL = ['names', 'names', 'names', 'rebindG', 'rebindG', 'modglobal', 'modglobal', 'say', 'say', 'usename',
-           'defclass', 'useclass', 'modglobal', 'trysibling']
+           'defclass', 'useclass', 'modglobal', 'trysibling', 'modsay', 'modsay']
 TRAILERS = [[['+', 'SKIP', None]], [['+', 'REQUIRES', 'env:SIM_NOT_SET']], [['+', 'REQUIRES', '--sim-absent']],
             [['-', 'REPORT_UDIFF', None]], [['+', 'IGNORE_WANT', None]], [['-', 'ELLIPSIS', None]],
             [['-', 'NORMALIZE_WHITESPACE', None]], [['+', 'IGNORE_EXCEPTION_DETAIL', None]]]
@@ -91,6 +91,12 @@ def add_special_steps(rng, dt, pfx, modname, others=()):
         steps.insert(rng.randint(0, len(steps)), {'i': b4, 'form': 'loopval', 'pts': [], 'ps2': rng.random() < 0.5,
                                                   'sep': 'blank', 'want': 'loopecho'})
         steps[0]['sep'] = 'none'
+    if rng.random() < 0.2:
+        # everything depends on something in the environment that is there at first
+        steps.insert(0, {'i': base + 40, 'form': 'directive', 'pts': [], 'ps2': False, 'sep': 'none',
+                         'dirs': [['+', 'REQUIRES', rng.choice(['env:SIM_A==1', '--sim-flag', 'env:SIM_A'])]]})
+        if len(steps) > 1:
+            steps[1]['sep'] = 'none'
     if others and rng.random() < 0.12:
         # everything depends on a module that the static lookup cannot find (the package is
         # not on sys.path): unmet, whatever has been imported in this process meanwhile
@@ -148,6 +154,18 @@ def generate(rng, tier):
     if flavour == 'global_exec':
         for op in ops:
             op['config'] = {'global_exec': 'SIMREG = []'}
+    if rng.random() < 0.2:
+        # the environment changes half way (what REQUIRES sees is decided when a statement is reached)
+        ops.insert(rng.randint(1, len(ops)), {'op': 'setenv', 'environ': rng.choice([{}, {'SIM_A': '2'}]),
+                                              'argv': rng.choice([['xdsim'], ['xdsim', '--sim-flag']])})
+    if flavour == 'plain' and rng.random() < 0.25:
+        # the command line front end, once with default options and once without
+        m0 = rng.choice(mods)
+        a = {'op': 'cli', 'argv': ['PATH:' + m0, 'all', '--verbose=%d' % rng.choice([0, 1, 3]),
+                                   '--options=' + rng.choice(['+SKIP', '-ELLIPSIS', '+IGNORE_WANT'])]}
+        b = {'op': 'cli', 'argv': ['PATH:' + rng.choice(mods), 'all', '--verbose=%d' % rng.choice([0, 1, 3])]}
+        ops.insert(rng.randint(0, len(ops)), a)
+        ops.append(b)
     ops.append({'op': 'probe'})
     plan = []
     execs = common.predicted_execs(world, ops)
@@ -211,7 +229,7 @@ def generate(rng, tier):
             says = [p for p in common.points_of(world, dtid) if p['form'] == 'say']
             if says:
                 plan.append({'dt': dtid, 'k': k, 'pid': says[0]['pid'], 'kind': 'mute'})
-    env = {'listing_seed': rng.randint(0, 99)}
+    env = {'listing_seed': rng.randint(0, 99), 'environ': {'SIM_A': '1'}, 'argv': ['xdsim', '--sim-flag']}
     if rng.random() < 0.2:
         env['pkgroot_on_path'] = rng.choice([0, 1])
     return {'profile': ID, 'world': world, 'ops': ops, 'plan': plan, 'render': True,
@@ -347,8 +365,22 @@ def cleanup(ctx):
 
 def isolated(scn, e, server):
     iso = {'profile': ID, 'world': scn['world'], 'env': scn.get('env', {}), 'render': True, 'ops': [], 'plan': []}
+    now = expect.env_at(scn, e['op'])
+    if now != scn.get('env', {}):
+        # the same text (rendered for the initial environment), run in the environment now in force
+        iso['ops'].append({'op': 'setenv', 'environ': now.get('environ', {}), 'argv': now.get('argv', ['xdsim'])})
     op = scn['ops'][e['op']]
     cfg = dict(op.get('config') or {})
+    if op['op'] == 'cli':
+        # the same default options, given to the doctest directly
+        for a in op['argv']:
+            if a.startswith('--options='):
+                drs = {}
+                for part in a[len('--options='):].split(','):
+                    part = part.strip()
+                    if part:
+                        drs[part.lstrip('+-').upper()] = not part.startswith('-')
+                cfg['default_runtime_state'] = drs
     iso['ops'].append({'op': 'run_obj', 'dt': e['dtid'], 'verbose': e.get('eff_verbose') or 0,
                        'on_error': e.get('eff_on_error') or 'return', 'mode': e.get('mode') or 'native',
                        'config': cfg})
